@@ -152,6 +152,28 @@ pub fn oracle_r(_ctx: &RunCtx, gp: &GenPoint, log: &mut CaseLog) -> Result<(), S
             ));
         }
     }
+    // ... and in the way prover and verifier USE the table: together with dynamic terms, and with a prefix of the static scalars
+    let dyn_points = [*p.h_base(), p.g_bases()[0], interleaved[n - 1]];
+    for (ti, c) in tests.iter().enumerate() {
+        // (the table wants one static scalar per entry; prover and verifier pad with zeros, as the second half does here)
+        for (what, len) in [("all static scalars", n), ("static scalars that are zero beyond the first half", (n / 2).max(2))] {
+            let d: Vec<Scalar> = (0..1 + ti % 3).map(|_| rand_scalar(&mut rng)).collect();
+            let pts = &dyn_points[..d.len()];
+            let mut cc = c.clone();
+            for x in cc.iter_mut().skip(len) {
+                *x = Scalar::ZERO;
+            }
+            let got = guarded(|| table.vartime_mixed_multiscalar_mul(cc.iter(), d.iter(), pts.iter()))?;
+            let want = RistrettoPoint::vartime_multiscalar_mul(cc.iter().chain(d.iter()), interleaved.iter().chain(pts.iter()));
+            if got != want {
+                return Err(format!(
+                    "precomputed table used with {} and {} dynamic term(s) does not evaluate the interleaved vector generators",
+                    what,
+                    d.len()
+                ));
+            }
+        }
+    }
     // the compressed forms HANDED TO THE TRANSCRIPT are the encodings of the same points: observe what prover and verifier
     // absorb for H and G (small parameter sets; one commitment)
     if bits * cap <= 64 {
@@ -202,7 +224,7 @@ pub fn oracle_r(_ctx: &RunCtx, gp: &GenPoint, log: &mut CaseLog) -> Result<(), S
     log.label(format!("cap={}", cap));
     log.label(format!("ext={}", ext));
     log.label(format!("gen:threads={}", gp.threads));
-    log.extra_evals += tests.len() as u64;
+    log.extra_evals += 3 * tests.len() as u64;
     log.nontrivial(&(bits, cap, ext));
     log.sample(json!({"engine": "R", "bits": bits, "capacity": cap, "ext": ext, "generators": all.len(), "table_tests": tests.len(), "threads": gp.threads}));
     Ok(())
@@ -257,7 +279,7 @@ pub fn def() -> PropertyDef {
                generator k == SHA3-512(\"RISTRETTO_MASKING_BASEPOINT_<k+1>\") mapped to the group; vector generator (party i, index j) == the \
                independent SHAKE256 chain derivation, party-major; compressed forms == compress(point), and (small sets) the H / G messages that prover and verifier absorb into the transcript, observed through the instrumented merlin copy, are exactly those encodings, one per blinding generator; all compressed generators of the set \
                pairwise distinct and none the identity; precomputed table: for one dense random scalar vector, three sparse ones and one unit \
-               vector, table.vartime_multiscalar_mul(c) == sum c_t * (interleaved G_0,H_0,G_1,H_1,..)_t; second construction, clone and (for a \
+               vector, table.vartime_multiscalar_mul(c) == sum c_t * (interleaved G_0,H_0,G_1,H_1,..)_t, and the same through vartime_mixed_multiscalar_mul with 1-3 dynamic terms (the call prover and verifier make), with full and with zero-padded static scalars; second construction, clone and (for a \
                fifth of the small sets) 8 concurrent constructions give identical bytes. Over the free module the table entries are compared \
                one by one. Racing FIRST use of the lazily cached blinding generators from a cold process is exercised by C18. Non-trivial = \
                every grid point; distinct by (bits, capacity, degree)."
